@@ -628,6 +628,12 @@ impl Monitor for C13 {
 pub struct C14 {
     states: [u64; 4],
     with_capture: u64,
+    /// a state object that is overwritten in place with `clone_from` at every visited state: its previous
+    /// content is the previously visited state (in tree walks a sibling line of the same turn) or, every
+    /// eighth time, a type-permuted look-alike (same occupancy and colours)
+    scratch: Option<GameState>,
+    visited: u64,
+    clone_from_copies: u64,
 }
 impl Monitor for C14 {
     fn on_state(&mut self, o: &Obs, s: &mut Sink) {
@@ -658,6 +664,36 @@ impl Monitor for C14 {
                 s.violate_game("C14", "previous_piece_boards", o.rec, format!("engine has {} boards, recorded {}", v.len(), sh.step_boards.len()));
             }
         }
+        // the same questions to a copy made in place over another state
+        {
+            self.visited += 1;
+            let mut dst = match self.scratch.take() {
+                Some(d) => d,
+                None => o.g.clone(),
+            };
+            if self.visited % 8 == 0 {
+                if let Some(d1) = crate::decoy::play_decoys(o.g).into_iter().next() {
+                    dst = d1;
+                }
+            }
+            let copied = guard("clone_from", || {
+                let mut d = dst;
+                d.clone_from(o.g);
+                d
+            });
+            if let Ok(d) = copied {
+                self.clone_from_copies += 1;
+                for i in 0..=k {
+                    if let Ok(b) = guard("piece_board_for_step", || decode_board(d.piece_board_for_step(i))) {
+                        let exp = if i == k { sh.board } else { match sh.step_boards.get(i) { Some(b) => *b, None => continue } };
+                        if b != exp {
+                            s.violate_game("C14", "step_board_of_clone_from_copy", o.rec, format!("a state overwritten in place with clone_from reports for step {} (current step {}) the board {} instead of {}", i, k, b.compact(), exp.compact()));
+                        }
+                    }
+                }
+                self.scratch = Some(d);
+            }
+        }
         if k > 0 {
             s.distinct(mix(sh.fingerprint(), sh.turn_start.fingerprint()));
             if s.want_sample() && (self.states[1] + self.states[2] + self.states[3]) % 4001 == 0 {
@@ -670,5 +706,6 @@ impl Monitor for C14 {
             s.add(&format!("states_after_{}_steps", k), self.states[k]);
         }
         s.add("states_in_turns_with_capture", self.with_capture);
+        s.add("clone_from_copies_checked", self.clone_from_copies);
     }
 }
